@@ -155,6 +155,14 @@ Definition second_round_facts : bool :=
   (* what the signature verifier checks is what is stored: the submitted bytes go to Ecrecover unchanged
      (65 bytes or refused), BuildCompassConsensus reads byte 64 of the stored signature *)
   Gen.C09.signature_verifier_passes_submitted_bytes && Gen.C09.compass_consensus_reads_byte_64 &&
+  (* the one end-blocker whose error reaches the SDK: valset's returns UpdateGracePeriod's error and
+     nothing else; UpdateGracePeriod can fail only where an operator address of the staking module
+     does not parse or is longer than 255 bytes; reading last block's snapshot (either format) cannot
+     fail, the legacy key is dropped by the first block *)
+  (match Gen.C09.valset_endblock_error_sources with [a] => String.eqb a "am.keeper.UpdateGracePeriod" | _ => false end)%string &&
+  (match Gen.C09.update_grace_period_error_sources with
+   | [a; b] => String.eqb a "slice.MapErr" && String.eqb b "encodeUnjailedSnapshot" | _ => false end)%string &&
+  Gen.C09.decode_unjailed_snapshot_is_total && Gen.C09.update_grace_period_reads_legacy_by_split && Gen.C09.update_grace_period_drops_legacy_key &&
   (* relay weights are validated (decimals in [0, 10^6]) before SetRelayWeights writes them *)
   Gen.C09.relay_weights_validated_when_set &&
   Gen.C09.version_gate_compares_semver && Gen.C09.version_gate_skips_without_upgrade && Gen.C09.version_gate_adds_v_prefix.
